@@ -14,30 +14,1040 @@ Definition owf (g : ogrammar) (term : nat -> bool) : Prop :=
 Definition kept (g : ogrammar) (i : nat) : Prop :=
   final_repl g (definitions g) (users g (definitions g)) i = None.
 
+Ltac splits := try red; repeat match goal with |- _ /\ _ => split end.
+
+(* ================= lists: update_nth, combine/seq ================= *)
+Lemma update_nth_length : forall A (l : list A) i f, length (update_nth l i f) = length l.
+Proof. induction l; destruct i; simpl; intros; auto. Qed.
+
+Lemma nth_update_same : forall A (l : list A) i f d, i < length l ->
+  nth i (update_nth l i f) d = f (nth i l d).
+Proof. induction l; destruct i; simpl; intros; try lia; auto. apply IHl; lia. Qed.
+
+Lemma nth_update_other : forall A (l : list A) i j f d, i <> j ->
+  nth j (update_nth l i f) d = nth j l d.
+Proof. induction l; destruct i; destruct j; simpl; intros; try congruence; auto. Qed.
+
+Lemma uf_get_lt : forall m i t, uf_get m i = Some t -> i < length m.
+Proof.
+  unfold uf_get; intros. destruct (Nat.lt_ge_cases i (length m)); auto.
+  rewrite nth_overflow in H; [discriminate|lia].
+Qed.
+
+Lemma uf_set_length : forall m i v, length (uf_set m i v) = length m.
+Proof. intros; apply update_nth_length. Qed.
+
+Lemma uf_get_set_same : forall m i v, i < length m -> uf_get (uf_set m i v) i = v.
+Proof. intros; unfold uf_get, uf_set. rewrite nth_update_same; auto. Qed.
+
+Lemma uf_get_set_other : forall m i j v, i <> j -> uf_get (uf_set m i v) j = uf_get m j.
+Proof. intros; unfold uf_get, uf_set. apply nth_update_other; auto. Qed.
+
+Lemma uf_get_init : forall (A : Type) (g : list A) j, uf_get (map (fun _ => None) g) j = None.
+Proof. unfold uf_get; induction g; destruct j; simpl; auto. Qed.
+
+Lemma in_combine_seq : forall A (d : A) (l : list A) st i s,
+  In (i, s) (combine (seq st (length l)) l) <-> (st <= i < st + length l /\ s = nth (i - st) l d).
+Proof.
+  induction l; simpl; intros.
+  - split; [tauto | lia].
+  - rewrite IHl. split.
+    + intros [H | [H1 H2]].
+      * inversion H; subst. rewrite Nat.sub_diag. split; [lia | auto].
+      * split; [lia|]. destruct (i - st) eqn:E; [lia|]. replace (i - S st) with n in H2 by lia. auto.
+    + intros [H1 H2]. destruct (Nat.eq_dec i st).
+      * left. subst. rewrite Nat.sub_diag in *. subst; auto.
+      * right. split; [lia|]. destruct (i - st) eqn:E; [lia|]. replace (i - S st) with n0 by lia. auto.
+Qed.
+
+Lemma nth_map_combine_seq : forall A B (f : nat * A -> B) (d : A) (d' : B) (l : list A) st k,
+  k < length l -> nth k (map f (combine (seq st (length l)) l)) d' = f (st + k, nth k l d).
+Proof.
+  induction l; simpl; intros; [lia|].
+  destruct k; simpl.
+  - rewrite Nat.add_0_r; auto.
+  - rewrite IHl by lia. f_equal. f_equal. lia.
+Qed.
+
+Lemma length_map_combine_seq : forall A B (f : nat * A -> B) (l : list A) st,
+  length (map f (combine (seq st (length l)) l)) = length l.
+Proof. intros. rewrite map_length, combine_length, seq_length. lia. Qed.
+
+(* fold over the symbols of a grammar, with their index *)
+Lemma fold_combine_seq_ind : forall A (d : A) (g : list A) B (f : B -> nat * A -> B) (P : nat -> B -> Prop),
+  (forall i acc, i < length g -> P i acc -> P (S i) (f acc (i, nth i g d))) ->
+  forall init, P 0 init -> P (length g) (fold_left f (combine (seq 0 (length g)) g) init).
+Proof.
+  intros A d g B f P Hstep.
+  assert (G : forall l st acc, st + length l = length g ->
+            (forall k, k < length l -> nth k l d = nth (st + k) g d) ->
+            P st acc -> P (length g) (fold_left f (combine (seq st (length l)) l) acc)).
+  { induction l; simpl; intros.
+    - rewrite Nat.add_0_r in H; subst; auto.
+    - apply IHl; [lia | |].
+      + intros. specialize (H0 (S k)). simpl in H0. rewrite H0 by lia. f_equal; lia.
+      + specialize (H0 0). simpl in H0. rewrite H0 by lia. rewrite Nat.add_0_r. apply Hstep; [lia|auto]. }
+  intros. apply G; auto.
+Qed.
+
+(* ================= union-find ================= *)
+Definition isroot (m : ufmap) (x k r : nat) : Prop := uf_root k m x = r /\ uf_get m r = None.
+
+Lemma uf_root_unlinked : forall k m r, uf_get m r = None -> uf_root k m r = r.
+Proof. destruct k; simpl; intros; auto. rewrite H; auto. Qed.
+
+Lemma isroot_S : forall m k x r, isroot m x k r -> isroot m x (S k) r.
+Proof.
+  unfold isroot. induction k; intros x r [H1 H2].
+  - simpl in H1. subst. split; auto. apply uf_root_unlinked; auto.
+  - split; auto. simpl in H1. change (uf_root (S (S k)) m x) with
+      (match uf_get m x with Some q => uf_root (S k) m q | None => x end).
+    destruct (uf_get m x) eqn:E; auto. apply IHk; auto.
+Qed.
+
+Lemma isroot_mono : forall m k k' x r, isroot m x k r -> k <= k' -> isroot m x k' r.
+Proof. induction 2; auto. apply isroot_S; auto. Qed.
+
+Lemma isroot_unique : forall m x k k' r r', isroot m x k r -> isroot m x k' r' -> r = r'.
+Proof.
+  intros. apply isroot_mono with (k' := max k k') in H; [|lia].
+  apply isroot_mono with (k' := max k k') in H0; [|lia].
+  destruct H, H0; congruence.
+Qed.
+
+Lemma relink_isroot : forall m p q f r, uf_get m p = Some q -> isroot m p f r ->
+  forall k x r', isroot m x k r' -> isroot (uf_set m p (Some r)) x k r'.
+Proof.
+  intros m p q f r Hp Hr.
+  assert (Hlt : p < length m) by (eapply uf_get_lt; eauto).
+  assert (Hrn : uf_get (uf_set m p (Some r)) r = None).
+  { rewrite uf_get_set_other; [apply Hr|]. intro; subst. destruct Hr; congruence. }
+  induction k; intros x r' [H1 H2].
+  - simpl in H1; subst. split; auto. rewrite uf_get_set_other; auto. intro; subst; congruence.
+  - assert (H2' : uf_get (uf_set m p (Some r)) r' = None).
+    { rewrite uf_get_set_other; auto. intro; subst; congruence. }
+    split; auto. simpl in *. destruct (uf_get m x) eqn:E.
+    + destruct (Nat.eq_dec x p).
+      * subst x. rewrite uf_get_set_same by auto.
+        assert (r' = r).
+        { eapply isroot_unique with (x := p) (k := S k); [|apply Hr]. split; auto. simpl. rewrite E; auto. }
+        subst. apply uf_root_unlinked; auto.
+      * rewrite uf_get_set_other by auto. rewrite E. apply IHk. split; auto.
+    + subst x. rewrite H2'. auto.
+Qed.
+
+Lemma link_isroot : forall m a rb, uf_get m a = None -> uf_get m rb = None -> a <> rb -> a < length m ->
+  forall k x r, isroot m x k r ->
+  isroot (uf_set m a (Some rb)) x (S k) (if Nat.eqb r a then rb else r).
+Proof.
+  intros m a rb Ha Hb Hne Hlt.
+  assert (Hrb : uf_get (uf_set m a (Some rb)) rb = None) by (rewrite uf_get_set_other; auto).
+  assert (Hbase : forall k r, uf_get m r = None ->
+            isroot (uf_set m a (Some rb)) r (S k) (if Nat.eqb r a then rb else r)).
+  { intros. destruct (Nat.eqb_spec r a).
+    - subst. split; auto. simpl. rewrite uf_get_set_same by auto. apply uf_root_unlinked; auto.
+    - assert (uf_get (uf_set m a (Some rb)) r = None) by (rewrite uf_get_set_other; auto).
+      split; auto. apply uf_root_unlinked; auto. }
+  induction k; intros x r [H1 H2].
+  - simpl in H1; subst. apply Hbase; auto.
+  - simpl in H1. destruct (uf_get m x) eqn:E.
+    + assert (x <> a) by (intro; subst; congruence).
+      destruct (IHk n r) as [I1 I2]; [split; auto|].
+      split; auto.
+      change (uf_root (S (S k)) (uf_set m a (Some rb)) x) with
+        (match uf_get (uf_set m a (Some rb)) x with Some q => uf_root (S k) (uf_set m a (Some rb)) q | None => x end).
+      rewrite uf_get_set_other by auto. rewrite E. auto.
+    + subst x. apply Hbase; auto.
+Qed.
+
+Section LINKS.
+Variable Q : nat -> nat -> Prop.
+Hypothesis Qtrans : forall a b c, Q a b -> Q b c -> Q a c.
+
+Definition links (m : ufmap) : Prop := forall j t, uf_get m j = Some t -> Q j t.
+
+Lemma links_chain : forall m, links m -> forall k x, uf_root k m x = x \/ Q x (uf_root k m x).
+Proof.
+  intros m L. induction k; simpl; intros; auto.
+  destruct (uf_get m x) eqn:E; auto.
+  right. destruct (IHk n) as [H | H]; [rewrite H; auto | eauto].
+Qed.
+
+Lemma compress_path_spec : forall f m p r, isroot m p f r -> links m ->
+  let m' := uf_compress_path f m p r in
+  length m' = length m /\
+  (forall k x r', isroot m x k r' -> isroot m' x k r') /\
+  links m' /\
+  (forall j, uf_get m' j = uf_get m j \/ (uf_get m j <> None /\ uf_get m' j = Some r)) /\
+  (forall q, uf_get m p = Some q -> f <> 0 -> uf_get m' p = Some r).
+Proof.
+  induction f; intros m p r Hr L; simpl.
+  - split; [|split; [|split; [|split]]]; auto. intros; lia.
+  - destruct (uf_get m p) eqn:E.
+    2:{ split; [|split; [|split; [|split]]]; auto. intros; discriminate. }
+    assert (Hlt : p < length m) by (eapply uf_get_lt; eauto).
+    assert (Hq : isroot m n f r).
+    { destruct Hr as [H1 H2]. simpl in H1. rewrite E in H1. split; auto. }
+    set (m1 := uf_set m p (Some r)).
+    assert (R1 : forall k x r', isroot m x k r' -> isroot m1 x k r')
+      by (eapply relink_isroot; eauto).
+    assert (L1 : links m1).
+    { intros j t Hj. unfold m1 in Hj. destruct (Nat.eq_dec p j).
+      - subst j. rewrite uf_get_set_same in Hj by auto. inversion Hj; subst t.
+        destruct Hq as [Hq1 _]. destruct (links_chain m L f n) as [H | H]; rewrite Hq1 in H.
+        + subst n. apply L; auto.
+        + eapply Qtrans; [apply L; eauto | auto].
+      - rewrite uf_get_set_other in Hj by auto. apply L; auto. }
+    assert (C1 : forall j, uf_get m1 j = uf_get m j \/ (uf_get m j <> None /\ uf_get m1 j = Some r)).
+    { intros j. unfold m1. destruct (Nat.eq_dec p j).
+      - subst j. right. rewrite uf_get_set_same by auto. split; congruence.
+      - left. apply uf_get_set_other; auto. }
+    assert (P1 : uf_get m1 p = Some r) by (unfold m1; apply uf_get_set_same; auto).
+    destruct (Nat.eqb n r).
+    + fold m1. splits; auto. unfold m1; apply uf_set_length.
+    + fold m1. destruct (IHf m1 n r (R1 _ _ _ Hq) L1) as (I1 & I2 & I3 & I4 & I5).
+      splits; auto.
+      * rewrite I1. apply uf_set_length.
+      * intros j. destruct (I4 j) as [H | [H H']]; destruct (C1 j) as [G | [G G']].
+        -- left; congruence.
+        -- right; split; auto. congruence.
+        -- right; split; auto. congruence.
+        -- right; split; auto.
+      * intros. destruct (I4 p) as [H1 | [_ H1]]; congruence.
+Qed.
+
+Lemma uf_find_spec : forall m e r m', uf_find m e = (r, m') ->
+  isroot m e (length m) (uf_root (length m) m e) -> links m ->
+  r = uf_root (length m) m e /\
+  length m' = length m /\
+  (forall k x r', isroot m x k r' -> isroot m' x k r') /\
+  links m' /\
+  (forall j, uf_get m' j = uf_get m j \/ (uf_get m j <> None /\ uf_get m' j = Some r)) /\
+  (forall q, uf_get m e = Some q -> uf_get m' e = Some r).
+Proof.
+  unfold uf_find. intros m e r m' H Hr L. inversion H; subst; clear H.
+  set (r := uf_root (length m) m e) in *.
+  split; auto.
+  destruct (Nat.eqb_spec r e).
+  - splits; auto. intros q Hq. destruct Hr as [_ Hr]. rewrite e0 in Hr. congruence.
+  - destruct (uf_get m e) eqn:E.
+    + destruct (Nat.eqb_spec n0 r).
+      * subst n0. splits; auto. 
+      * destruct (compress_path_spec (length m) m e r Hr L) as (I1 & I2 & I3 & I4 & I5).
+        splits; auto. intros q Hq. eapply I5; eauto.
+        apply uf_get_lt in E. lia.
+    + splits; auto. intros; discriminate.
+Qed.
+
+Lemma uf_find_unlinked : forall m e, uf_get m e = None -> uf_find m e = (e, m).
+Proof.
+  intros. unfold uf_find. rewrite uf_root_unlinked by auto. rewrite Nat.eqb_refl. auto.
+Qed.
+
+(* ---- compress_all ---- *)
+Definition cstep (acc : ufmap) (i : nat) : ufmap :=
+  match uf_get acc i with Some _ => snd (uf_find acc i) | None => acc end.
+
+Definition CInv (N k : nat) (acc : ufmap) : Prop :=
+  length acc = N /\ links acc /\ (forall x, exists r, isroot acc x N r) /\
+  (forall j t, j < k -> uf_get acc j = Some t -> uf_get acc t = None).
+
+Lemma cstep_inv : forall N k acc, CInv N k acc -> CInv N (S k) (cstep acc k).
+Proof.
+  intros N k acc (H1 & H2 & H3 & H4). unfold cstep.
+  destruct (uf_get acc k) eqn:E.
+  - destruct (uf_find acc k) as [r acc'] eqn:F. simpl.
+    destruct (H3 k) as [r0 Hr0].
+    assert (Hr : isroot acc k (length acc) (uf_root (length acc) acc k)).
+    { rewrite H1. destruct Hr0 as [A B]. rewrite A. split; auto. }
+    destruct (uf_find_spec _ _ _ _ F Hr H2) as (I0 & I1 & I2 & I3 & I4 & I5).
+    assert (Dom : forall t, uf_get acc t = None -> uf_get acc' t = None).
+    { intros t Ht. destruct (I4 t) as [G | [G _]]; congruence. }
+    assert (Hrr : uf_get acc' r = None).
+    { apply Dom. subst r. apply Hr. }
+    splits; auto.
+    + congruence.
+    + intros x. destruct (H3 x) as [rx Hx]. exists rx. apply I2; auto.
+    + intros j t Hj Hjt. destruct (Nat.eq_dec j k).
+      * subst j. rewrite (I5 _ E) in Hjt. inversion Hjt; subst; auto.
+      * destruct (I4 j) as [G | [_ G]].
+        -- rewrite G in Hjt. apply Dom. eapply H4; eauto. lia.
+        -- rewrite G in Hjt. inversion Hjt; subst; auto.
+  - splits; auto. intros j t Hj Hjt. destruct (Nat.eq_dec j k); [subst; congruence|].
+    eapply H4; eauto. lia.
+Qed.
+
+Lemma compress_all_spec : forall m, links m -> (forall x, exists r, isroot m x (length m) r) ->
+  let d := uf_compress_all m in
+  length d = length m /\ links d /\ (forall j t, uf_get d j = Some t -> uf_get d t = None).
+Proof.
+  intros m L R. unfold uf_compress_all.
+  assert (G : forall n st acc, CInv (length m) st acc ->
+              CInv (length m) (st + n) (fold_left cstep (seq st n) acc)).
+  { induction n; simpl; intros.
+    - rewrite Nat.add_0_r; auto.
+    - replace (st + S n) with (S st + n) by lia. apply IHn. apply cstep_inv; auto. }
+  specialize (G (length m) 0 m). simpl in G.
+  destruct G as (G1 & G2 & G3 & G4).
+  { splits; auto. intros; lia. }
+  fold cstep. split; [|split]; auto.
+  intros j t Hj. eapply G4; eauto.
+  apply uf_get_lt in Hj. change (fold_left cstep (seq 0 (length m)) m) with
+     (fold_left cstep (seq 0 (length m)) m) in *. lia.
+Qed.
+
+(* ---- definitions ---- *)
+Variable g : ogrammar.
+Hypothesis Qalias : forall a b, a < length g -> single_alias (osym_at g a) = Some b -> Q a b.
+
+Definition dstep (m : ufmap) (p : nat * osym) : ufmap :=
+  let '(i, s) := p in match single_alias s with Some trg => uf_union m i trg | None => m end.
+
+Definition DInv (i : nat) (m : ufmap) : Prop :=
+  length m = length g /\ (forall j t, uf_get m j = Some t -> j < i /\ Q j t) /\
+  (forall x, exists r, isroot m x i r).
+
+Lemma dstep_inv : forall i m, i < length g -> DInv i m -> DInv (S i) (dstep m (i, osym_at g i)).
+Proof.
+  intros i m Hi (H1 & H2 & H3). unfold dstep.
+  assert (Mono : DInv (S i) m).
+  { splits; auto.
+    - intros j t H. apply H2 in H. split; [lia|tauto].
+    - intros x. destruct (H3 x) as [r Hr]. exists r. apply isroot_S; auto. }
+  destruct (single_alias (osym_at g i)) as [trg|] eqn:SA; auto.
+  assert (Hi0 : uf_get m i = None).
+  { destruct (uf_get m i) eqn:E; auto. apply H2 in E. lia. }
+  assert (L : links m) by (intros j t Hj; eapply H2; eauto).
+  unfold uf_union. rewrite uf_find_unlinked by auto.
+  destruct (uf_find m trg) as [rb m2] eqn:F.
+  destruct (H3 trg) as [r0 Hr0].
+  assert (Hr : isroot m trg (length m) (uf_root (length m) m trg)).
+  { apply isroot_mono with (k' := length m) in Hr0; [|lia]. destruct Hr0 as [A B]. rewrite A. split; auto. }
+  destruct (uf_find_spec _ _ _ _ F Hr L) as (I0 & I1 & I2 & I3 & I4 & I5).
+  assert (Dom : forall t, uf_get m t = None -> uf_get m2 t = None).
+  { intros t Ht. destruct (I4 t) as [G | [G _]]; congruence. }
+  assert (Dom' : forall t v, uf_get m2 t = Some v -> uf_get m t <> None).
+  { intros t v Ht. destruct (I4 t) as [G | [G _]]; congruence. }
+  assert (D2 : DInv i m2).
+  { splits; auto.
+    - congruence.
+    - intros j t H. split; [|eapply I3; eauto]. apply Dom' in H. destruct (uf_get m j) eqn:E; [|congruence]. apply H2 in E; tauto.
+    - intros x. destruct (H3 x) as [r Hx]. exists r. apply I2; auto. }
+  destruct (Nat.eqb_spec i rb).
+  - destruct D2 as (A & B & C). splits; auto.
+    + intros j t H. apply B in H. split; [lia|tauto].
+    + intros x. destruct (C x) as [r Hx]. exists r. apply isroot_S; auto.
+  - assert (Hrb2 : uf_get m2 rb = None). { apply Dom. subst rb. apply Hr. }
+    assert (Hi2 : uf_get m2 i = None) by (apply Dom; auto).
+    assert (Hlt2 : i < length m2) by lia.
+    splits.
+    + rewrite uf_set_length. lia.
+    + intros j t H. split.
+      { destruct (Nat.eq_dec i j); [lia|]. rewrite uf_get_set_other in H by auto.
+        apply D2 in H. lia. }
+      destruct (Nat.eq_dec i j).
+      * subst j. rewrite uf_get_set_same in H by auto. inversion H; subst t.
+        pose proof (Qalias _ _ Hi SA) as Qa.
+        destruct (links_chain m L (length m) trg) as [G | G]; rewrite <- I0 in G.
+        -- rewrite G; auto.
+        -- eauto.
+      * rewrite uf_get_set_other in H by auto. apply D2 in H. tauto.
+    + intros x. destruct D2 as (_ & _ & C). destruct (C x) as [r Hx].
+      eexists. apply link_isroot; eauto.
+Qed.
+
+Lemma definitions_spec :
+  let d := definitions g in
+  length d = length g /\ (forall j t, uf_get d j = Some t -> Q j t) /\
+  (forall j t, uf_get d j = Some t -> uf_get d t = None).
+Proof.
+  unfold definitions.
+  set (m := fold_left _ _ _).
+  assert (D : DInv (length g) m).
+  { unfold m. 
+    apply (fold_combine_seq_ind osym (mk_osym [] false) g ufmap dstep DInv).
+    - intros. apply dstep_inv; auto.
+    - splits.
+      + apply map_length.
+      + intros j t H. rewrite uf_get_init in H; discriminate.
+      + intros x. exists x. split; simpl; auto. apply uf_get_init. }
+  destruct D as (D1 & D2 & D3).
+  assert (L : links m) by (intros j t Hj; eapply D2; eauto).
+  destruct (compress_all_spec m L) as (C1 & C2 & C3).
+  { rewrite D1. auto. }
+  split; [congruence|]. split; auto.
+Qed.
+End LINKS.
+
+(* ================= users ================= *)
+Lemma fold_left_flat_map : forall A B C (f : A -> B -> A) (h : C -> list B) l a,
+  fold_left f (flat_map h l) a = fold_left (fun a x => fold_left f (h x) a) l a.
+Proof. induction l; simpl; intros; auto. rewrite fold_left_app. auto. Qed.
+
+Lemma fold_left_map : forall A B C (f : A -> B -> A) (h : C -> B) l a,
+  fold_left f (map h l) a = fold_left (fun a x => f a (h x)) l a.
+Proof. induction l; simpl; intros; auto. Qed.
+
+Lemma fold_left_ext : forall A B (f f' : A -> B -> A), (forall a b, f a b = f' a b) ->
+  forall l a, fold_left f l a = fold_left f' l a.
+Proof. induction l; simpl; intros; auto. rewrite H. auto. Qed.
+
+Section USERS.
+Variable g : ogrammar.
+Variable d : ufmap.
+
+Definition ostep (u : list (option nat)) (p : nat * nat) : list (option nat) :=
+  let '(i, x') := p in
+  match nth x' u None with
+  | None => update_nth u x' (fun _ => Some i)
+  | Some _ => update_nth u x' (fun _ => Some x')
+  end.
+
+(* all (user, used symbol) occurrences, in processing order *)
+Definition occs : list (nat * nat) :=
+  flat_map (fun p : nat * osym => let '(i, s) := p in
+              match uf_get d i with
+              | Some _ => []
+              | None => flat_map (fun rhs => map (fun x => (i, defn d x)) rhs) (o_rules s)
+              end) (combine (seq 0 (length g)) g).
+
+Definition raw_users : list (option nat) := fold_left ostep occs (map (fun _ => None) g).
+
+Lemma users_eq : users g d =
+  map (fun '(i, o) => match o with Some x => if Nat.eqb x i then None else Some x | None => None end)
+      (combine (seq 0 (length g)) raw_users).
+Proof.
+  unfold users, raw_users, occs. f_equal. f_equal.
+  rewrite fold_left_flat_map. apply fold_left_ext. intros u [i s].
+  destruct (uf_get d i); auto.
+  rewrite fold_left_flat_map. apply fold_left_ext. intros u' rhs.
+  rewrite fold_left_map. apply fold_left_ext. intros u'' x. reflexivity.
+Qed.
+
+Lemma in_occs : forall z e, In (z, e) occs <->
+  (z < length g /\ uf_get d z = None /\
+   exists rhs x, In rhs (o_rules (osym_at g z)) /\ In x rhs /\ e = defn d x).
+Proof.
+  intros. unfold occs. rewrite in_flat_map. split.
+  - intros [[i s] [H1 H2]].
+    apply (in_combine_seq _ (mk_osym [] false)) in H1. destruct H1 as [H1 H3].
+    rewrite Nat.sub_0_r in H3. fold (osym_at g i) in H3. subst s.
+    destruct (uf_get d i) eqn:E; [destruct H2|].
+    apply in_flat_map in H2. destruct H2 as [rhs [H2 H4]].
+    apply in_map_iff in H4. destruct H4 as [x [H4 H5]]. inversion H4; subst.
+    split; [lia|]. split; auto. eauto.
+  - intros (H1 & H2 & rhs & x & H3 & H4 & H5).
+    exists (z, osym_at g z). split.
+    + apply (in_combine_seq _ (mk_osym [] false)). rewrite Nat.sub_0_r. split; [lia|reflexivity].
+    + rewrite H2. apply in_flat_map. exists rhs. split; auto. apply in_map_iff. exists x. subst; auto.
+Qed.
+
+Definition UInv (n : nat) (u : list (option nat)) (pre : list (nat * nat)) : Prop :=
+  length u = n /\
+  forall e, e < n ->
+    (nth e u None = None -> forall z, ~ In (z, e) pre) /\
+    (forall v, nth e u None = Some v ->
+       (exists z, In (z, e) pre) /\ (v <> e -> forall z, In (z, e) pre -> z = v)).
+
+Lemma ostep_inv : forall n u pre z e, UInv n u pre -> e < n -> UInv n (ostep u (z, e)) (pre ++ [(z, e)]).
+Proof.
+  intros n u pre z e [HL HI] He. unfold ostep.
+  assert (Hin : forall z' e', In (z', e') (pre ++ [(z, e)]) <-> In (z', e') pre \/ (z' = z /\ e' = e)).
+  { intros. rewrite in_app_iff. simpl. split; intros [H | H]; auto.
+    - destruct H as [H | []]. inversion H; auto.
+    - destruct H; subst; auto. }
+  destruct (nth e u None) eqn:E.
+  - split; [rewrite update_nth_length; auto|].
+    intros e' He'. destruct (Nat.eq_dec e e').
+    + subst e'. rewrite nth_update_same by lia. split; [discriminate|].
+      intros v Hv. inversion Hv; subst v. split; [|congruence].
+      exists z. apply Hin. auto.
+    + rewrite nth_update_other by auto. destruct (HI e' He') as [A B]. split.
+      * intros Hn z' Hz'. apply Hin in Hz'. destruct Hz' as [Hz' | [_ Hz']]; [|congruence]. eapply A; eauto.
+      * intros v Hv. destruct (B v Hv) as [[z0 B1] B2]. split.
+        -- exists z0. apply Hin; auto.
+        -- intros Hne z' Hz'. apply Hin in Hz'. destruct Hz' as [Hz' | [_ Hz']]; [|congruence]. auto.
+  - split; [rewrite update_nth_length; auto|].
+    intros e' He'. destruct (Nat.eq_dec e e').
+    + subst e'. rewrite nth_update_same by lia. split; [discriminate|].
+      intros v Hv. inversion Hv; subst v. split.
+      * exists z. apply Hin. auto.
+      * intros _ z' Hz'. apply Hin in Hz'. destruct Hz' as [Hz' | [Hz' _]]; auto.
+        destruct (HI e He) as [A _]. exfalso. eapply A; eauto.
+    + rewrite nth_update_other by auto. destruct (HI e' He') as [A B]. split.
+      * intros Hn z' Hz'. apply Hin in Hz'. destruct Hz' as [Hz' | [_ Hz']]; [|congruence]. eapply A; eauto.
+      * intros v Hv. destruct (B v Hv) as [[z0 B1] B2]. split.
+        -- exists z0. apply Hin; auto.
+        -- intros Hne z' Hz'. apply Hin in Hz'. destruct Hz' as [Hz' | [_ Hz']]; [|congruence]. auto.
+Qed.
+
+Lemma ostep_fold_inv : forall n l u pre, UInv n u pre -> (forall z e, In (z, e) l -> e < n) ->
+  UInv n (fold_left ostep l u) (pre ++ l).
+Proof.
+  induction l as [|[z e] l]; simpl; intros.
+  - rewrite app_nil_r; auto.
+  - replace (pre ++ (z, e) :: l) with ((pre ++ [(z, e)]) ++ l) by (rewrite <- app_assoc; auto).
+    apply IHl; [|eauto]. apply ostep_inv; eauto.
+Qed.
+
+Hypothesis occs_range : forall z e, In (z, e) occs -> e < length g.
+
+Lemma raw_users_inv : UInv (length g) raw_users occs.
+Proof.
+  unfold raw_users. change occs with ([] ++ occs) at 2.
+  apply ostep_fold_inv; auto.
+  split; [apply map_length|]. intros e He.
+  assert (nth e (map (fun _ : osym => @None nat) g) None = None) by (apply (uf_get_init _ g e)).
+  rewrite H. split; [intros _ z []|discriminate].
+Qed.
+
+(* the specification of the unique user *)
+Lemma users_spec : forall e usr, nth e (users g d) None = Some usr ->
+  e < length g /\
+  (exists z, In (z, e) occs) /\
+  (forall z, In (z, e) occs -> z = usr).
+Proof.
+  intros e usr H. rewrite users_eq in H.
+  destruct raw_users_inv as [HL HI].
+  destruct (Nat.lt_ge_cases e (length g)).
+  2:{ rewrite nth_overflow in H; [discriminate|].
+      rewrite <- HL. rewrite length_map_combine_seq. lia. }
+  split; auto.
+  rewrite <- HL in H. rewrite (nth_map_combine_seq _ _ _ None) in H by lia.
+  simpl in H. destruct (nth e raw_users None) eqn:E; [|discriminate].
+  destruct (Nat.eqb_spec n e); [discriminate|]. inversion H; subst n.
+  destruct (HI e H0) as [_ B]. destruct (B _ E) as [B1 B2]. split; auto.
+Qed.
+End USERS.
+
+(* ================= generic sequence derivations ================= *)
+Inductive seqd (P : nat -> list nat -> Prop) : list nat -> list nat -> Prop :=
+| sd_nil : seqd P [] []
+| sd_cons : forall s rest u v, P s u -> seqd P rest v -> seqd P (s :: rest) (u ++ v).
+
+Lemma seqd_impl : forall (P P' : nat -> list nat -> Prop) l w,
+  (forall s u, In s l -> P s u -> P' s u) -> seqd P l w -> seqd P' l w.
+Proof.
+  intros P P' l w H D. induction D; constructor.
+  - apply H; simpl; auto.
+  - apply IHD. intros; apply H; simpl; auto.
+Qed.
+
+Lemma seqd_app : forall P a b w,
+  seqd P (a ++ b) w <-> exists u v, w = u ++ v /\ seqd P a u /\ seqd P b v.
+Proof.
+  induction a; simpl; intros.
+  - split.
+    + intros. exists [], w. repeat split; auto. constructor.
+    + intros (u & v & H1 & H2 & H3). inversion H2; subst. auto.
+  - split.
+    + intros H. inversion H; subst. apply IHa in H4. destruct H4 as (u1 & v1 & E & A & B).
+      subst. exists (u ++ u1), v1. rewrite app_assoc. repeat split; auto. constructor; auto.
+    + intros (u & v & H1 & H2 & H3). inversion H2; subst. rewrite <- app_assoc.
+      constructor; auto. apply IHa. eauto.
+Qed.
+
+Lemma seqd_single : forall (P : nat -> list nat -> Prop) s w, seqd P [s] w <-> P s w.
+Proof.
+  split; intros.
+  - inversion H; subst. inversion H4; subst. rewrite app_nil_r; auto.
+  - rewrite <- (app_nil_r w). constructor; auto. constructor.
+Qed.
+
+Lemma seqd_flat_map : forall P (h : nat -> list nat) l w,
+  seqd P (flat_map h l) w <-> seqd (fun s u => seqd P (h s) u) l w.
+Proof.
+  induction l; simpl; intros.
+  - split; intros H; inversion H; constructor.
+  - rewrite seqd_app. split.
+    + intros (u & v & E & A & B). subst. constructor; auto. apply IHl; auto.
+    + intros H. inversion H; subst. exists u, v. repeat split; auto. apply IHl; auto.
+Qed.
+
+Lemma seqd_map : forall P (h : nat -> nat) l w,
+  seqd P (map h l) w <-> seqd (fun s u => P (h s) u) l w.
+Proof.
+  induction l; simpl; intros.
+  - split; intros H; inversion H; constructor.
+  - split; intros H; inversion H; subst; constructor; auto; apply IHl; auto.
+Qed.
+
+Lemma oderives_seq_seqd : forall g term l w,
+  oderives_seq g term l w <-> seqd (oderives g term) l w.
+Proof.
+  split; induction 1; constructor; auto.
+Qed.
+
+Scheme oderives_mind := Induction for oderives Sort Prop
+  with oderives_seq_mind := Induction for oderives_seq Sort Prop.
+Scheme oderives_mi := Minimality for oderives Sort Prop
+  with oderives_seq_mi := Minimality for oderives_seq Sort Prop.
+Combined Scheme oderives_mutind from oderives_mi, oderives_seq_mi.
+
+(* ================= rules of the output grammar ================= *)
+Definition Rf (g : ogrammar) := final_repl g (definitions g) (users g (definitions g)).
+Definition img (g : ogrammar) (x : nat) : list nat :=
+  match Rf g x with Some r => r | None => [x] end.
+
+Lemma expand_shortcuts_length : forall g, length (expand_shortcuts g) = length g.
+Proof. intros. unfold expand_shortcuts. apply length_map_combine_seq. Qed.
+
+Lemma osym_at_overflow : forall g i, length g <= i -> osym_at g i = mk_osym [] false.
+Proof. intros. unfold osym_at. apply nth_overflow; auto. Qed.
+
+Lemma expand_shortcuts_at : forall g i,
+  o_special (osym_at (expand_shortcuts g) i) = o_special (osym_at g i) /\
+  o_rules (osym_at (expand_shortcuts g) i) =
+    match Rf g i with Some _ => [] | None => map (flat_map (img g)) (o_rules (osym_at g i)) end.
+Proof.
+  intros. destruct (Nat.lt_ge_cases i (length g)).
+  - unfold osym_at at 1 3. unfold expand_shortcuts.
+    rewrite (nth_map_combine_seq _ _ _ (mk_osym [] false)) by auto. simpl.
+    fold (osym_at g i). fold (Rf g). fold (Rf g i).
+    destruct (Rf g i); simpl; auto.
+  - rewrite (osym_at_overflow (expand_shortcuts g)) by (rewrite expand_shortcuts_length; auto).
+    rewrite (osym_at_overflow g) by auto. simpl. destruct (Rf g i); auto.
+Qed.
+
+(* ================= structural facts ================= *)
+Lemma single_alias_inv : forall s b, single_alias s = Some b -> o_special s = false /\ o_rules s = [[b]].
+Proof.
+  unfold single_alias; intros. destruct (o_special s); [discriminate|].
+  destruct (o_rules s) as [|[|x [|]] [|]]; try discriminate. inversion H; auto.
+Qed.
+
+Lemma repl_of_inv : forall g d u x r, repl_of g d u x = Some r ->
+  o_special (osym_at g x) = false /\
+  exists rhs0 usr, o_rules (osym_at g x) = [rhs0] /\ r = map (defn d) rhs0 /\ nth x u None = Some usr.
+Proof.
+  unfold repl_of; intros. destruct (o_special (osym_at g x)); [discriminate|].
+  destruct (o_rules (osym_at g x)) as [|rhs0 [|]]; try discriminate.
+  destruct (nth x u None) eqn:E; [|discriminate]. inversion H. split; eauto.
+Qed.
+
+Lemma has_rule_lt : forall g x rhs, In rhs (o_rules (osym_at g x)) -> x < length g.
+Proof.
+  intros. destruct (Nat.lt_ge_cases x (length g)); auto.
+  rewrite osym_at_overflow in H by auto. destruct H.
+Qed.
+
+Lemma in_expand : forall g d u f l e, In e (expand f g d u l) ->
+  In e l \/ exists z r, repl_of g d u z = Some r /\ In e r.
+Proof.
+  induction f; simpl; intros; auto.
+  apply in_flat_map in H. destruct H as [x [H1 H2]].
+  destruct (repl_of g d u x) eqn:E.
+  - apply IHf in H2. destruct H2 as [H2 | H2]; eauto.
+  - destruct H2 as [H2 | []]. subst; auto.
+Qed.
+
+Lemma expand_flat : forall g d u f l, expand f g d u l = flat_map (fun e => expand f g d u [e]) l.
+Proof.
+  destruct f; simpl; intros.
+  - induction l; simpl; auto. f_equal; auto.
+  - apply flat_map_ext. intros. rewrite app_nil_r. auto.
+Qed.
+
+(* special symbols *)
+Theorem special_kept0 : forall g i,
+  i < length g -> o_special (osym_at g i) = true -> kept g i /\
+  o_special (osym_at (expand_shortcuts g) i) = true.
+Proof.
+  intros g i Hi Hs. split.
+  - unfold kept, final_repl, is_root, repl_of. rewrite Hs.
+    destruct (definitions_spec (fun j _ => single_alias (osym_at g j) <> None)) with (g := g) as (_ & A & _); auto.
+    { intros; congruence. }
+    destruct (uf_get (definitions g) i) eqn:E; auto.
+    apply A in E. unfold single_alias in E. rewrite Hs in E. congruence.
+  - destruct (expand_shortcuts_at g i) as [H _]. congruence.
+Qed.
+
+(* ================= semantics ================= *)
+Section SEM.
+Variable g : ogrammar.
+Variable term : nat -> bool.
+Hypothesis WF : owf g term.
+
+Let d := definitions g.
+Let u := users g d.
+Let od := oderives g term.
+Let g' := expand_shortcuts g.
+Let od' := oderives g' term.
+
+Lemma wf_range : forall i rhs x, In rhs (o_rules (osym_at g i)) -> In x rhs -> x < length g.
+Proof. apply WF. Qed.
+Lemma wf_term : forall i rhs, In rhs (o_rules (osym_at g i)) -> term i = false.
+Proof.
+  intros. destruct (term i) eqn:E; auto. destruct WF as (_ & W2 & _). rewrite (W2 _ E) in H. destruct H.
+Qed.
+
+Fixpoint odh (h : nat) (s : nat) (w : list nat) : Prop :=
+  match h with
+  | O => False
+  | S h' => (term s = true /\ w = [s]) \/
+            (term s = false /\ exists rhs, In rhs (o_rules (osym_at g s)) /\ seqd (odh h') rhs w)
+  end.
+
+Lemma odh_mono : forall h h' s w, odh h s w -> h <= h' -> odh h' s w.
+Proof.
+  induction h; simpl; intros; [tauto|].
+  destruct h'; [lia|]. simpl. destruct H as [H | [H1 (rhs & H2 & H3)]]; auto.
+  right. split; auto. exists rhs. split; auto.
+  eapply seqd_impl; [|eauto]. intros. eapply IHh; eauto. lia.
+Qed.
+
+Lemma od_odh : (forall s w, oderives g term s w -> exists h, odh h s w) /\
+               (forall l w, oderives_seq g term l w -> exists h, seqd (odh h) l w).
+Proof.
+  apply oderives_mutind; intros.
+  - exists 1. simpl. auto.
+  - destruct H2 as [h H2]. exists (S h). simpl. right. split; auto. exists rhs. auto.
+  - exists 0. constructor.
+  - destruct H0 as [h1 H0]. destruct H2 as [h2 H2]. exists (max h1 h2).
+    constructor.
+    + eapply odh_mono; eauto. lia.
+    + eapply seqd_impl; [|eauto]. intros. eapply odh_mono; eauto. lia.
+Qed.
+
+Lemma odh_od : forall h s w, odh h s w -> od s w.
+Proof.
+  induction h; simpl; intros; [tauto|].
+  destruct H as [[H1 H2] | [H1 (rhs & H2 & H3)]].
+  - subst. constructor; auto.
+  - eapply od_rule; eauto. apply oderives_seq_seqd. eapply seqd_impl; [|eauto]. intros; apply IHh; auto.
+Qed.
+
+(* alias-relatedness: derivations transfer without growing, and back *)
+Definition Rel (i j : nat) : Prop :=
+  (forall h w, odh h i w -> odh h j w) /\ (forall w, od j w -> od i w).
+
+Lemma Rel_refl : forall i, Rel i i.
+Proof. split; auto. Qed.
+Lemma Rel_trans : forall a b c, Rel a b -> Rel b c -> Rel a c.
+Proof. intros a b c [A1 A2] [B1 B2]. split; auto. Qed.
+
+Lemma Rel_alias : forall a b, a < length g -> single_alias (osym_at g a) = Some b -> Rel a b.
+Proof.
+  intros a b Ha SA. apply single_alias_inv in SA. destruct SA as [_ SR].
+  assert (T : term a = false). { apply wf_term with (rhs := [b]). rewrite SR; simpl; auto. }
+  split.
+  - intros h w H. destruct h; simpl in H; [tauto|].
+    destruct H as [[H _] | [_ (rhs & H2 & H3)]]; [congruence|].
+    rewrite SR in H2. destruct H2 as [H2 | []]. subst rhs. apply seqd_single in H3.
+    eapply odh_mono; eauto.
+  - intros w H. eapply od_rule; eauto.
+    + rewrite SR; simpl; auto.
+    + apply oderives_seq_seqd. apply seqd_single. auto.
+Qed.
+
+Lemma Rel_iff : forall i j, Rel i j -> forall w, od i w <-> od j w.
+Proof.
+  intros i j [A B] w. split; auto.
+  intros H. apply od_odh in H. destruct H as [h H]. eapply odh_od; eauto.
+Qed.
+
+(* facts on the definitions *)
+Lemma d_len : length d = length g.
+Proof. 
+  destruct (definitions_spec (fun _ _ => True)) with (g := g) as (A & _); auto.
+Qed.
+Lemma d_idem : forall j t, uf_get d j = Some t -> uf_get d t = None.
+Proof.
+  destruct (definitions_spec (fun _ _ => True)) with (g := g) as (_ & _ & A); auto.
+Qed.
+Lemma d_range : forall j t, uf_get d j = Some t -> t < length g.
+Proof.
+  destruct (definitions_spec (fun _ t => t < length g)) with (g := g) as (_ & A & _); auto.
+  intros a b Ha SA. apply single_alias_inv in SA. destruct SA as [_ SR].
+  eapply wf_range with (i := a) (rhs := [b]); [rewrite SR|]; simpl; auto.
+Qed.
+Lemma d_rel : forall j t, uf_get d j = Some t -> Rel j t.
+Proof.
+  destruct (definitions_spec Rel Rel_trans g Rel_alias) as (_ & A & _); auto.
+Qed.
+
+Lemma defn_unlinked : forall x, uf_get d (defn d x) = None.
+Proof.
+  intros. unfold defn. destruct (uf_get d x) eqn:E; auto. eapply d_idem; eauto.
+Qed.
+Lemma defn_range : forall x, x < length g -> defn d x < length g.
+Proof.
+  intros. unfold defn. destruct (uf_get d x) eqn:E; auto. eapply d_range; eauto.
+Qed.
+Lemma defn_rel : forall x, Rel x (defn d x).
+Proof.
+  intros. unfold defn. destruct (uf_get d x) eqn:E; [eapply d_rel; eauto | apply Rel_refl].
+Qed.
+
+(* facts on the users *)
+Lemma occs_range : forall z e, In (z, e) (occs g d) -> e < length g.
+Proof.
+  intros z e H. apply in_occs in H. destruct H as (_ & _ & rhs & x & H1 & H2 & H3).
+  subst. apply defn_range. eapply wf_range; eauto.
+Qed.
+
+Lemma user_unlinked : forall e usr, nth e u None = Some usr -> uf_get d e = None.
+Proof.
+  intros e usr H. apply users_spec in H; [|apply occs_range].
+  destruct H as (_ & [z Hz] & _). apply in_occs in Hz.
+  destruct Hz as (_ & _ & rhs & x & _ & _ & Hx). subst. apply defn_unlinked.
+Qed.
+
+Lemma user_unique : forall e usr z rhs x, nth e u None = Some usr ->
+  uf_get d z = None -> In rhs (o_rules (osym_at g z)) -> In x rhs -> defn d x = e -> z = usr.
+Proof.
+  intros e usr z rhs x H Hz Hr Hx He. apply users_spec in H; [|apply occs_range].
+  destruct H as (_ & _ & H). apply H. apply in_occs. split; [eapply has_rule_lt; eauto|].
+  split; auto. exists rhs, x. auto.
+Qed.
+
+Notation R := (Rf g).
+
+Lemma repl_of_unlinked : forall x r, repl_of g d u x = Some r -> uf_get d x = None.
+Proof.
+  intros. apply repl_of_inv in H. destruct H as (_ & rhs0 & usr & _ & _ & H).
+  eapply user_unlinked; eauto.
+Qed.
+
+Lemma is_root_inv : forall x, is_root g d u x = true ->
+  exists r usr, repl_of g d u x = Some r /\ nth x u None = Some usr /\ repl_of g d u usr = None.
+Proof.
+  unfold is_root; intros. destruct (repl_of g d u x) eqn:E; [|discriminate].
+  destruct (nth x u None) eqn:E2; [|discriminate].
+  destruct (repl_of g d u n) eqn:E3; [discriminate|]. eauto.
+Qed.
+
+(* every symbol of an inlined right-hand side is copied *)
+Lemma in_repl_kept : forall z r e, repl_of g d u z = Some r -> In e r -> R e = None.
+Proof.
+  intros z r e Hz He. pose proof (repl_of_unlinked _ _ Hz) as Uz. pose proof Hz as Hz0.
+  apply repl_of_inv in Hz. destruct Hz as (_ & rhs0 & usr & H1 & H2 & H3).
+  subst r. apply in_map_iff in He. destruct He as [y [Hy1 Hy2]].
+  unfold Rf, final_repl. fold d. fold u.
+  destruct (is_root g d u e) eqn:IR.
+  - exfalso. apply is_root_inv in IR. destruct IR as (r' & usr' & A & B & C).
+    assert (z = usr').
+    { eapply user_unique; eauto. rewrite H1; simpl; auto. }
+    subst usr'. congruence.
+  - subst e. rewrite defn_unlinked. auto.
+Qed.
+
+Lemma seqd_iff : forall (P P' : nat -> list nat -> Prop) l w,
+  (forall s v, P s v <-> P' s v) -> (seqd P l w <-> seqd P' l w).
+Proof. intros. split; apply seqd_impl; intros; apply H; auto. Qed.
+
+Lemma single_rule : forall x rhs0 w, o_rules (osym_at g x) = [rhs0] -> (od x w <-> seqd od rhs0 w).
+Proof.
+  intros x rhs0 w H.
+  assert (T : term x = false). { apply wf_term with (rhs := rhs0). rewrite H; simpl; auto. }
+  split; intros D.
+  - inversion D; subst; [congruence|]. rewrite H in H1. destruct H1 as [H1 | []]. subst.
+    apply oderives_seq_seqd; auto.
+  - eapply od_rule; eauto. rewrite H; simpl; auto. apply oderives_seq_seqd; auto.
+Qed.
+
+Lemma repl_of_lp : forall x r w, repl_of g d u x = Some r -> (seqd od r w <-> od x w).
+Proof.
+  intros x r w H. apply repl_of_inv in H. destruct H as (_ & rhs0 & usr & H1 & H2 & _). subst r.
+  rewrite (single_rule _ _ _ H1). rewrite seqd_map. apply seqd_iff.
+  intros. symmetry. apply Rel_iff. apply defn_rel.
+Qed.
+
+Lemma expand_lp : forall f l w, seqd od (expand f g d u l) w <-> seqd od l w.
+Proof.
+  induction f; simpl; intros; [tauto|].
+  rewrite seqd_flat_map. apply seqd_iff. intros s v.
+  destruct (repl_of g d u s) eqn:E.
+  - rewrite IHf. apply repl_of_lp; auto.
+  - apply seqd_single.
+Qed.
+
+(* every replacement is language preserving in the input grammar *)
+Lemma img_lp : forall x w, seqd od (img g x) w <-> od x w.
+Proof.
+  intros. unfold img, Rf, final_repl. fold d. fold u.
+  destruct (is_root g d u x).
+  - rewrite expand_lp. apply seqd_single.
+  - destruct (uf_get d x) eqn:E; [|apply seqd_single].
+    destruct (eliminated g d u n); [apply seqd_single|].
+    rewrite seqd_single. symmetry. apply Rel_iff. apply d_rel; auto.
+Qed.
+
+(* output derivations are input derivations *)
+Lemma fwd : (forall s w, oderives g' term s w -> od s w) /\
+            (forall l w, oderives_seq g' term l w -> seqd od l w).
+Proof.
+  apply oderives_mutind; intros.
+  - constructor; auto.
+  - destruct (expand_shortcuts_at g s) as [_ HR]. fold g' in HR. rewrite HR in H0.
+    destruct (R s); [destruct H0|]. apply in_map_iff in H0. destruct H0 as [rhs0 [H3 H4]]. subst rhs.
+    apply seqd_flat_map in H2.
+    eapply od_rule; eauto. apply oderives_seq_seqd.
+    eapply seqd_impl; [|eauto]. intros. apply img_lp; auto.
+  - constructor.
+  - constructor; auto.
+Qed.
+
+Lemma rf_not_eliminated : forall t, eliminated g d u t = false -> R t = None.
+Proof.
+  unfold eliminated, Rf, final_repl, is_root. fold d. fold u. intros.
+  destruct (repl_of g d u t); [discriminate|]. destruct (uf_get d t); [discriminate|]. auto.
+Qed.
+
+(* input derivations are output derivations *)
+Lemma back_kept : forall h,
+  (forall h', h' < h -> forall x w, odh h' x w -> seqd od' (img g x) w) ->
+  forall x w, odh h x w -> R x = None -> od' x w.
+Proof.
+  intros h IH x w H K. destruct h; simpl in H; [tauto|].
+  destruct H as [[H1 H2] | [H1 (rhs & H2 & H3)]].
+  - subst. constructor; auto.
+  - apply od_rule with (rhs := flat_map (img g) rhs); auto.
+    + destruct (expand_shortcuts_at g x) as [_ HR]. unfold g'. rewrite HR, K. apply in_map; auto.
+    + apply oderives_seq_seqd. apply seqd_flat_map. eapply seqd_impl; [|eauto].
+      intros. eapply IH; eauto.
+Qed.
+
+Lemma back_expand : forall h,
+  (forall h', h' < h -> forall x w, odh h' x w -> seqd od' (img g x) w) ->
+  forall f l w h', h' < h -> seqd (odh h') l w ->
+  (forall e, In e (expand f g d u l) -> R e = None) ->
+  seqd od' (expand f g d u l) w.
+Proof.
+  intros h IH.
+  assert (KE : forall h' e w, h' < h -> odh h' e w -> R e = None -> seqd od' [e] w).
+  { intros. specialize (IH h' H e w H0). unfold img in IH. rewrite H1 in IH. auto. }
+  induction f; intros l w h' Hh D K.
+  - simpl in *. eapply seqd_impl; [|eauto]. intros. apply seqd_single. eapply KE; eauto.
+  - simpl in *. apply seqd_flat_map. eapply seqd_impl; [|eauto].
+    intros s v Hs Dv. simpl.
+    assert (Ks : forall e, In e (match repl_of g d u s with Some rhs => expand f g d u rhs | None => [s] end) ->
+                 R e = None).
+    { intros. apply K. apply in_flat_map. eauto. }
+    destruct (repl_of g d u s) eqn:E.
+    + pose proof E as E0. apply repl_of_inv in E. destruct E as (_ & rhs0 & usr & H1 & H2 & _). subst l0.
+      destruct h'; simpl in Dv; [tauto|].
+      destruct Dv as [[T _] | [T (rhs & H3 & H4)]].
+      { destruct WF as (_ & W2 & _). rewrite (W2 _ T) in H1. discriminate. }
+      rewrite H1 in H3. destruct H3 as [H3 | []]. subst rhs.
+      apply IHf with (h' := h'); [lia | | auto].
+      apply seqd_map. eapply seqd_impl; [|eauto]. intros. apply (defn_rel s0); auto.
+    + eapply KE; eauto. apply Ks; simpl; auto.
+Qed.
+
+Lemma back : forall h x w, odh h x w -> seqd od' (img g x) w.
+Proof.
+  induction h using lt_wf_ind. intros x w D.
+  unfold img. destruct (R x) eqn:E.
+  2:{ apply seqd_single. eapply back_kept; eauto. }
+  unfold Rf, final_repl in E. fold d in E. fold u in E.
+  destruct (is_root g d u x) eqn:IR.
+  - inversion E; subst l; clear E.
+    apply is_root_inv in IR. destruct IR as (r & usr & A & B & C).
+    pose proof A as A0. apply repl_of_inv in A. destruct A as (_ & rhs0 & usr' & H1 & H2 & _).
+    assert (Hx : x < length g). { apply has_rule_lt with (rhs := rhs0). rewrite H1; simpl; auto. }
+    destruct (length g) as [|n1] eqn:EL; [lia|].
+    assert (EX : expand (S n1) g d u [x] = expand n1 g d u r).
+    { simpl. rewrite A0. apply app_nil_r. }
+    rewrite EX.
+    destruct h; simpl in D; [tauto|].
+    destruct D as [[T _] | [T (rhs & H3 & H4)]].
+    { destruct WF as (_ & W2 & _). rewrite (W2 _ T) in H1. discriminate. }
+    rewrite H1 in H3. destruct H3 as [H3 | []]. subst rhs.
+    apply back_expand with (h := S h) (h' := h); auto.
+    + subst r. apply seqd_map. eapply seqd_impl; [|eauto]. intros. apply (defn_rel s); auto.
+    + intros e He. apply in_expand in He. destruct He as [He | (z & r' & Hz & He)].
+      * eapply in_repl_kept; eauto.
+      * eapply in_repl_kept; eauto.
+  - destruct (uf_get d x) eqn:EU; [|discriminate].
+    destruct (eliminated g d u n) eqn:EE; [discriminate|]. inversion E; subst l; clear E.
+    apply seqd_single. eapply back_kept; eauto.
+    + apply (d_rel _ _ EU); auto.
+    + apply rf_not_eliminated; auto.
+Qed.
+
+Theorem expand_preserves0 : forall s w, kept g s -> (od' s w <-> od s w).
+Proof.
+  intros s w K. split.
+  - apply fwd.
+  - intros D. apply od_odh in D. destruct D as [h D]. apply back in D.
+    unfold img in D. unfold kept in K. fold (Rf g s) in K. rewrite K in D. apply seqd_single in D. auto.
+Qed.
+
+Lemma rf_range : forall x r e, x < length g -> R x = Some r -> In e r -> e < length g.
+Proof.
+  intros x r e Hx E He. unfold Rf, final_repl in E. fold d in E. fold u in E.
+  assert (RR : forall z r' e', repl_of g d u z = Some r' -> In e' r' -> e' < length g).
+  { intros z r' e' Hz He'. apply repl_of_inv in Hz. destruct Hz as (_ & rhs0 & usr & H1 & H2 & _).
+    subst r'. apply in_map_iff in He'. destruct He' as [y [Hy1 Hy2]]. subst e'.
+    apply defn_range. eapply wf_range with (i := z) (rhs := rhs0); auto. rewrite H1; simpl; auto. }
+  destruct (is_root g d u x).
+  - inversion E; subst r. apply in_expand in He. destruct He as [[He | []] | (z & r' & Hz & He)].
+    + subst; auto.
+    + eapply RR; eauto.
+  - destruct (uf_get d x) eqn:EU; [|discriminate].
+    destruct (eliminated g d u n); [discriminate|]. inversion E; subst r.
+    destruct He as [He | []]. subst. eapply d_range; eauto.
+Qed.
+
+Theorem expand_wf0 : owf g' term.
+Proof.
+  destruct WF as (W1 & W2 & W3).
+  split; [|split].
+  - intros i rhs x Hr Hx. unfold g' in *. rewrite expand_shortcuts_length.
+    destruct (expand_shortcuts_at g i) as [_ HR]. rewrite HR in Hr.
+    destruct (R i); [destruct Hr|]. apply in_map_iff in Hr. destruct Hr as [rhs0 [H1 H2]]. subst rhs.
+    apply in_flat_map in Hx. destruct Hx as [y [Hy1 Hy2]].
+    assert (Hy : y < length g) by (eapply W1; eauto).
+    unfold img in Hy2. destruct (R y) eqn:E.
+    + eapply rf_range; eauto.
+    + destruct Hy2 as [Hy2 | []]. subst; auto.
+  - intros i T. destruct (expand_shortcuts_at g i) as [_ HR]. fold g' in HR. rewrite HR.
+    rewrite (W2 _ T). destruct (R i); auto.
+  - intros i T. unfold g'. rewrite expand_shortcuts_length. auto.
+Qed.
+End SEM.
+
+
+(* ================= the fixed statements ================= *)
+
 (*FIXED*) (* special symbols (start, captures, token limits, sub-grammar boundaries) are always kept *)
 Theorem special_kept : forall g i,
   i < length g -> o_special (osym_at g i) = true -> kept g i /\
   o_special (osym_at (expand_shortcuts g) i) = true.
-Proof. Admitted.
+Proof. exact special_kept0. Qed.
 
 (*FIXED*) (* one pass: every kept non-terminal symbol derives exactly the same terminal sequences *)
 Theorem expand_preserves : forall g term s w,
   owf g term -> s < length g -> kept g s ->
   (oderives (expand_shortcuts g) term s w <-> oderives g term s w).
-Proof. Admitted.
+Proof. intros. apply expand_preserves0; auto. Qed.
 
 (*FIXED*) (* the output of a pass is again well formed *)
 Theorem expand_wf : forall g term, owf g term -> owf (expand_shortcuts g) term.
-Proof. Admitted.
+Proof. intros. apply expand_wf0; auto. Qed.
 
 (*FIXED*) (* the optimisation as applied (two passes) preserves the language of every special symbol,
    in particular of the start symbol *)
 Theorem optimize_preserves : forall g term s w,
   owf g term -> s < length g -> o_special (osym_at g s) = true ->
   (oderives (optimize g) term s w <-> oderives g term s w).
-Proof. Admitted.
+Proof.
+  intros g term s w WF Hs Sp. unfold optimize.
+  destruct (special_kept g s Hs Sp) as [K1 Sp1].
+  assert (Hs1 : s < length (expand_shortcuts g)) by (rewrite expand_shortcuts_length; auto).
+  destruct (special_kept _ s Hs1 Sp1) as [K2 _].
+  rewrite (expand_preserves (expand_shortcuts g) term s w (expand_wf g term WF) Hs1 K2).
+  apply expand_preserves; auto.
+Qed.
 
 (*FIXED*) (* union-find: the root of an element is a fixed point, and compression does not change roots *)
 Lemma uf_find_root : forall m e root m',
   uf_find m e = (root, m') -> root = uf_root (length m) m e.
-Proof. Admitted.
+Proof. unfold uf_find; intros. inversion H; auto. Qed.
+
+Print Assumptions special_kept.
+Print Assumptions expand_preserves.
+Print Assumptions expand_wf.
+Print Assumptions optimize_preserves.
+Print Assumptions uf_find_root.
